@@ -180,6 +180,23 @@ def run(ctx):
         oracle(ctx, q, d, ok_paths, ko_paths, outs, dict(info, q=q, printed=printed, element=element), element)
         if not trees.unchanged(o, snap):
             ctx.fail("the input tree was modified", info)
+        if rng.random() < 0.2:
+            # the same marker, right after, on a query that differs from this one in its layout only (other blanks, a
+            # default number spelled out): equal for `==`, another text (seeded C17-H: renderings memoised per `==` tree)
+            from . import c09
+            d2 = common.normalize(c09.relayout(rng, d))
+            o2 = common.load_tree(d2)
+            outs2 = {}
+            try:
+                for parci in (True, False):
+                    outs2[parci] = marker(o2, set(ok_paths), set(ko_paths), parcimonious=parci)
+            except Exception as e:
+                ctx.fail("HTMLMarker raised %s: %s" % (type(e).__name__, e), {"tree": d2})
+                outs2 = None
+            if outs2:
+                ctx.count("history: same marker on a re-laid-out query")
+                oracle(ctx, None, d2, ok_paths, ko_paths, outs2,
+                       {"tree": d2, "ok": info["ok"], "ko": info["ko"], "previous": d, "element": element}, element)
         # ---- re-entrant use of the one long-lived marker: while it marks this tree (at the first membership test on
         # the path set) the same marker marks another tree with other sets; both answers must be those of calls
         # that do not overlap (seeded C17-F: the sets and the mode kept on the marker instead of in the context)
